@@ -67,6 +67,10 @@ def check(run, project):
     w11(run, roles)
     from .shared import discarded_generators
     discarded_generators(run, project, "W12")
+    # W13: every member of a named range (handle ranges: the last PCR, the last NV index ...) is a valid value - a well-formed
+    # encoding that carries it must decode in strict mode: the membership / member-construction semantics of NamedRange (C04-V4)
+    from . import namedrange
+    namedrange.check(run, "W13", project.module("tpmstream.spec.common.values"))
     # W8: a decode starts from its own empty region list (a shared default would charge this decode with regions
     # another decode left open, and reject a well-formed encoding)
     from .c03 import r4
